@@ -763,6 +763,14 @@ class OptimizationProblem(EvaluationProblem):
                 if isinstance(val, ndarray) and isinstance(val[0], bytes_):
                     val = val[0].decode()
 
+                if attr_name == "ineq_tolerance":
+                    problem.tolerances.inequality = float(val)
+                    continue
+
+                if attr_name == "eq_tolerance":
+                    problem.tolerances.equality = float(val)
+                    continue
+
                 if attr_name == "minimize_objective":
                     attr_name = "_OptimizationProblem__minimize_objective"
 
